@@ -361,3 +361,29 @@ package contractcourt
 //@   site call resolveTimeoutTxOutput nth 1: assert arg(1).Hash == op.Hash && arg(1).Index == op.Index && ret(checkpointStageOne) == nil
 //@   site call checkpointStageOne: assert arg(1) == spenderTxid
 //@   site call isZeroFeeOutput nth 1: assert !h.outputIncubating
+//@
+//@ // ---- C13: a breach resolver rebuilt from the log is as usable as a fresh one
+//@ func newBreachResolverFromReader
+//@   props C13
+//@   site store breachResolver.replyChan: assert value != nil
+//@   ensures result1 == nil ==> result0 != nil
+//@
+//@ func newBreachResolver
+//@   props C13
+//@   ensures result != nil
+//@   site store breachResolver.replyChan: assert value != nil
+//@
+//@ // ---- C12: merging action maps keeps the HTLCs of both sides under every action
+//@ func (c ChainActionMap) Merge
+//@   props C12
+//@   loop * havoc
+//@   site mapupdate c: assert arg(key) == chainAction && len(arg(val)) == len(c[chainAction]) + len(htlcs)
+//@   site lookup c: assert arg(key) == chainAction
+//@
+//@ // ---- C12: after a restart every commitment's HTLC set is watched under its own key
+//@ func NewChannelArbitrator
+//@   props C12
+//@   loop * havoc
+//@   site mapupdate unmerged nth 0: assert arg(key) == LocalHtlcSet && arg(val) == htlcSets[LocalHtlcSet]
+//@   site mapupdate unmerged nth 1: assert arg(key) == RemoteHtlcSet && arg(val) == htlcSets[RemoteHtlcSet]
+//@   site mapupdate unmerged nth 2: assert arg(key) == RemotePendingHtlcSet && arg(val) == htlcSets[RemotePendingHtlcSet]
